@@ -81,9 +81,15 @@ func readMarker(r io.ByteReader) (marker, error) {
 		return invalidMarker, fmt.Errorf("invalid marker identifier %0x", b)
 	}
 
-	b, err = r.ReadByte()
-	if err != nil {
-		return invalidMarker, err
+	// Any marker may be preceded by any number of 0xff fill bytes
+	for {
+		b, err = r.ReadByte()
+		if err != nil {
+			return invalidMarker, err
+		}
+		if b != 0xff {
+			break
+		}
 	}
 
 	return makeMarker(b, r)
